@@ -85,3 +85,138 @@ pub open spec fn opt_str_encodable(o: Option<String>) -> bool {
         Some(s) => str_encodable(encode_utf8(s@)),
     }
 }
+
+// ---------------------------------------------------------------------------------------------
+// Decoder side: what one "type and value" token at the head of a byte sequence means.
+// ---------------------------------------------------------------------------------------------
+
+/// left fold: acc, then each payload byte shifted in from the right (big endian)
+pub open spec fn be_value(acc: u64, p: Seq<u8>) -> u64
+    decreases p.len(),
+{
+    if p.len() == 0 {
+        acc
+    } else {
+        be_value((acc << 8) | (p[0] as u64), p.subrange(1, p.len() as int))
+    }
+}
+
+pub enum Tv {
+    /// the sequence ends before the token is complete
+    Eof,
+    /// string payload is not valid UTF-8
+    BadUtf8,
+    /// head byte of no known class (0x0_, 0x2_, 0xE_, 0xF_): the reader keeps stale state, nothing is promised
+    Unknown,
+    /// 0x1_ : a one-byte tag (boolean / "none" marker)
+    Tag(u8),
+    /// number of width class k with value v; n bytes consumed
+    Num(int, u64, int),
+    /// string token of type t (0xC0 | 0xD0) with these bytes; n bytes consumed
+    Str(u8, Seq<u8>, int),
+}
+
+pub open spec fn dec_tv(s: Seq<u8>) -> Tv {
+    if s.len() == 0 {
+        Tv::Eof
+    } else {
+        let h = s[0];
+        let low = (h % 16) as u8;
+        if 0x10 <= h && h <= 0x1F {
+            Tv::Tag(h)
+        } else if 0x30 <= h && h <= 0xBF {
+            let k = (h as int - 0x30) / 0x10;
+            if s.len() < 1 + k {
+                Tv::Eof
+            } else {
+                Tv::Num(k, be_value(low as u64, s.subrange(1, 1 + k)), 1 + k)
+            }
+        } else if 0xC0 <= h && h <= 0xCF {
+            let n = low as int;
+            if s.len() < 1 + n {
+                Tv::Eof
+            } else if !valid_utf8(s.subrange(1, 1 + n)) {
+                Tv::BadUtf8
+            } else {
+                Tv::Str(0xC0u8, s.subrange(1, 1 + n), 1 + n)
+            }
+        } else if 0xD0 <= h && h <= 0xDF {
+            if s.len() < 2 {
+                Tv::Eof
+            } else {
+                let n = ((low as int) * 256) + s[1] as int;
+                if s.len() < 2 + n {
+                    Tv::Eof
+                } else if !valid_utf8(s.subrange(2, 2 + n)) {
+                    Tv::BadUtf8
+                } else {
+                    Tv::Str(0xD0u8, s.subrange(2, 2 + n), 2 + n)
+                }
+            }
+        } else {
+            Tv::Unknown
+        }
+    }
+}
+
+pub open spec fn skip(s: Seq<u8>, n: int) -> Seq<u8> {
+    s.subrange(n, s.len() as int)
+}
+
+pub open spec fn is_uint_type(t: u8) -> bool {
+    t == 0x30 || t == 0x40 || t == 0x50 || t == 0x60 || t == 0x70 || t == 0x80 || t == 0x90 || t == 0xA0 || t == 0xB0
+}
+
+/// postcondition shape of read_type_and_size for a reader that was ok
+pub open spec fn tv_post(rest0: Seq<u8>, rel: bool, ok1: bool, rest1: Seq<u8>, type1: u8, num1: u64, str1: Seq<u8>) -> bool {
+    match dec_tv(rest0) {
+        Tv::Eof => !ok1,
+        Tv::BadUtf8 => !ok1,
+        Tv::Unknown => true,
+        Tv::Tag(b) => (rel ==> ok1) && (ok1 ==> type1 == b && rest1 == skip(rest0, 1)),
+        Tv::Num(k, v, n) => (rel ==> ok1) && (ok1 ==> type1 == uint_type(k) && num1 == v && rest1 == skip(rest0, n)),
+        Tv::Str(t, b, n) => (rel ==> ok1) && (ok1 ==> type1 == t && str1 == b && rest1 == skip(rest0, n)),
+    }
+}
+
+/// the token is a number: Some((value, bytes consumed)); a token of another kind / cut off / malformed: None
+pub open spec fn num_token(rest0: Seq<u8>) -> Option<(u64, int)> {
+    match dec_tv(rest0) {
+        Tv::Num(k, v, n) => Some((v, n)),
+        _ => None,
+    }
+}
+
+pub open spec fn str_token(rest0: Seq<u8>) -> Option<(Seq<u8>, int)> {
+    match dec_tv(rest0) {
+        Tv::Str(t, b, n) => Some((b, n)),
+        _ => None,
+    }
+}
+
+pub open spec fn unknown_head(rest0: Seq<u8>) -> bool {
+    dec_tv(rest0) == Tv::Unknown
+}
+
+/// shape shared by all read_* postconditions (reader ok before the call):
+/// tok = what the spec decoder sees, got = what the call returned matches it
+pub open spec fn rd_post(present: bool, unknown: bool, rel: bool, ok1: bool, rest0: Seq<u8>, n: int, rest1: Seq<u8>, value_ok: bool) -> bool {
+    if unknown {
+        true
+    } else if present {
+        (rel ==> ok1) && (ok1 ==> value_ok && rest1 == skip(rest0, n))
+    } else {
+        !ok1
+    }
+}
+
+/// UTF-8 encoding is injective (vstd: decode_utf8(encode_utf8(c)) == c)
+pub proof fn lemma_utf8_injective(a: Seq<char>, b: Seq<char>)
+    requires
+        encode_utf8(a) == encode_utf8(b),
+    ensures
+        a == b,
+{
+    encode_utf8_decode_utf8(a);
+    encode_utf8_decode_utf8(b);
+}
